@@ -214,7 +214,13 @@ def eval_cycle_case(case):
         if case['path'] == 'cb': ls.cycle(k, lambda *a: None)
         else: ls.cycle(k)
     order = ','.join(str(n.index) for n in c.topological_order()) or '~'
-    ans = common.run_driver([f"cycle {m} {int(case['strip'])} {k} {order} {fmt_rows(in0)} {fmt_rows(in1)} {circ.dump_net(c)}"])[0]
+    ans, cert = common.run_driver([f"cycle {m} {int(case['strip'])} {k} {order} {fmt_rows(in0)} {fmt_rows(in1)} {circ.dump_net(c)}",
+                                   f"cyclecert {','.join(str(int(x)) for x in ls.c_locs)} {circ.dump_net(c)}"])
+    # side conditions of C01.cycle_on_memory on the REAL c_locs: `zero` (state element with open data pin captures the row of the
+    # constant slot) must hold on every circuit; `outs` fails exactly for circuits with a state element without output pin list
+    case['_mem_thm'] = cert
+    if 'zero=1' not in cert: return False, {'cyclecert': cert}, {'cyclecert': 'zero=1'}
+    if ('outs=1' in cert) != all(len(n.outs) > 0 for n in c.s_nodes[len(c.io_nodes):]): return False, {'cyclecert': cert}, 'outs flag'
     parts = ans.split(';')
     if len(parts) != 5: return False, {'driver': ans[:200]}, None
     ints = lambda t: [int(x) for x in t.split(',') if x != '']
@@ -249,7 +255,8 @@ def cycle_tie(ck, n_circuits, thorough=False):
                 ok, obs, exp = False, {'raised': f'{type(ex).__name__}: {ex}'[:300]}, None
             ck.case(key=('cycle', circ.dump_net(c), case['m'], case['strip'], case['reuse'], case['path'], case['k']),
                     nontrivial=d['ff'] >= 1 and case['k'] >= 1,
-                    tag=['tie:cycle', f"tie-m:{case['m']}", f"tie-k:{min(case['k'], 3)}", f"tie-ff:{min(d['ff'], 3)}"])
+                    tag=['tie:cycle', f"tie-m:{case['m']}", f"tie-k:{min(case['k'], 3)}", f"tie-ff:{min(d['ff'], 3)}",
+                         f"tie-memthm:{case.pop('_mem_thm', '?')}"])
             if not ok:
                 ck.broken_tie('cycle model correspondence (Model/Cycle.lean vs LogicSim.cycle)', f'real {obs} != model {exp}'[:400],
                               inp={'cycle_case': case})
